@@ -322,7 +322,7 @@ func (dr *DecodingReader) ByteList(dst *[]byte, byteLimit uint64) error {
 	// grow the destination if necessary
 	if uint64(cap(*dst)) < byteLen {
 		*dst = make([]byte, byteLen, byteLen)
-	} else if uint64(len(*dst)) < byteLen {
+	} else {
 		*dst = (*dst)[:byteLen]
 	}
 	_, err := dr.Read(*dst)
